@@ -28,6 +28,13 @@ func replayOther(res *Result, rf replayFile, text string) {
 	switch v.Kind {
 	case "panic", "hang", "sql_xor_error", "compiled_unparsable":
 		pc.totalityChecks(text)
+		if call, _ := extra["call"].(string); call == "Span" {
+			// the hang was in a Span method of the tree (Compile calls them for implicit column names)
+			stmts, _ := parser.Parse(text) // also the partial tree returned with an error
+			for _, n := range listNodes(stmts) {
+				guarded(text, "Span", func() { n.Node.Span() })
+			}
+		}
 		keep := res.Violations[:0]
 		for _, w := range res.Violations {
 			if w.Property == rf.Property {
